@@ -19,6 +19,7 @@ import (
 	"math"
 	"math/big"
 	"reflect"
+	"strconv"
 	"time"
 
 	"github.com/google/uuid"
@@ -322,7 +323,21 @@ func (dec *Decoder) LastReferenceIndex() int {
 
 // ReadReference to p.
 func (dec *Decoder) ReadReference(p interface{}) {
-	dec.convertReference(dec.refer.Read(dec.ReadInt()), p)
+	dec.convertReference(dec.readReference(), p)
+}
+
+// readReference reads a reference index and returns the item it refers to. An
+// index outside the table (always the case in simple mode) comes from a
+// malformed stream: it is reported through the decoder's error.
+func (dec *Decoder) readReference() interface{} {
+	index := dec.ReadInt()
+	if index < 0 || index >= len(dec.refer.ref) {
+		if dec.Error == nil {
+			dec.Error = DecodeError("hprose/io: invalid reference index " + strconv.Itoa(index))
+		}
+		return nil
+	}
+	return dec.refer.Read(index)
 }
 
 func (dec *Decoder) convertReference(o interface{}, p interface{}) {
